@@ -66,6 +66,15 @@ func ttmlRate(fr int, tick int) string {
 `
 }
 
+// srtMany: n short cues (outputs of every writer exceed one 4096-byte buffer)
+func srtMany(n int) string {
+	var b strings.Builder
+	for i := 0; i < n; i++ {
+		fmt.Fprintf(&b, "%d\n00:%02d:%02d,000 --> 00:%02d:%02d,800\ncue %d\n\n", i+1, i/60, i%60, i/60, i%60, i)
+	}
+	return b.String()
+}
+
 // writeSTL produces STL bytes through the library's writer (used only as INPUT bytes for schedule /
 // fault / totality checks; the STL codec itself is judged by C05 with an independent encoder).
 func writeSTL(dsc string, fps int, n int) []byte {
@@ -136,6 +145,7 @@ func Small() []Doc {
 		{"srt-crlf", "srt", []byte(crlf(srtLF)), true},
 		{"srt-cr", "srt", []byte(cr(srtLF)), true},
 		{"srt-bom-noindex-eofblank", "srt", []byte("\xef\xbb\xbf00:00:01,000 --> 00:00:02,000 X1:1 X2:2\r\na\r\n\r\n\r\n00:00:03.5 --> 00:00:04.25\r\n<font color=\"red\">b</font>\r\n\r\n\r\n"), true},
+		{"srt-40-cues", "srt", []byte(srtMany(40)), true},
 		{"srt-invalid-time", "srt", []byte("1\n00:00:01,000 --> 00:0x:02,000\na\n"), false},
 		{"srt-no-end", "srt", []byte("1\n00:00:01,000 -->\na\n"), false},
 		{"vtt-full", "vtt", []byte(vttFull), true},
